@@ -2,16 +2,19 @@
 (* Layer I for C15: the example builder of notations/jschema/example.go as an algorithm.   *)
 (* A user type is unfolded at most twice on one path (processedTypes); the third visit      *)
 (* yields "no example here" (NIL).  Where NIL lands decides whether the result is valid:    *)
-(*   - an array item or an optional property that is NIL is left out;                        *)
+(*   - an optional property that is NIL is left out; an array ends at its first NIL item;    *)
 (*   - an or-alternative that is NIL gives way to the next alternative;                      *)
 (*   - a REQUIRED property that is NIL makes the whole object NIL, provided some enclosing   *)
 (*     optional property, array item or alternative-with-a-successor can absorb it (cut > 0). *)
 (* Switch DropRequiredAtCut = the pinned tree: a NIL required property was simply left out,  *)
 (* which produced objects their own schema rejects (repaired by 7677947).                    *)
+(* Switch ShiftItemsAtCut = the tree before f1cb7eb: only the NIL item of an array was left  *)
+(* out, which moved the following items into its position ([@a, 1] gave [[1], 1]); the array *)
+(* now ends at the first NIL item (items are matched by position).                          *)
 (* TLC checks on every accepted type graph of GenGraph that Build yields a value which        *)
 (* Sem!Verdict accepts (ExProduct.cfg), and that the switch breaks this.                       *)
 EXTENDS Integers, Sequences, FiniteSets, Sem
-CONSTANT DropRequiredAtCut
+CONSTANTS DropRequiredAtCut, ShiftItemsAtCut
 
 NIL == [t |-> "nil"]
 NotNil(x) == x # NIL
@@ -27,7 +30,10 @@ BuildAlts(env, names, i, cnt, cut) ==
 Build(env, n, cnt, cut) ==
   CASE n.t = "lit" -> n.v
     [] n.t = "ref" -> BuildAlts(env, n.names, 1, cnt, cut)
-    [] n.t = "arr" -> [t |-> "arr", items |-> SelectSeq([i \in DOMAIN n.items |-> Build(env, n.items[i], cnt, cut + 1)], NotNil)]
+    [] n.t = "arr" ->
+         LET kids == [i \in DOMAIN n.items |-> Build(env, n.items[i], cnt, cut + 1)]
+             stop == IF \E i \in DOMAIN kids : kids[i] = NIL THEN (CHOOSE i \in DOMAIN kids : kids[i] = NIL /\ \A j \in 1..(i - 1) : kids[j] # NIL) ELSE Len(kids) + 1
+         IN [t |-> "arr", items |-> IF ShiftItemsAtCut THEN SelectSeq(kids, NotNil) ELSE SubSeq(kids, 1, stop - 1)]
     [] n.t = "obj" ->
          LET props == ObjProps(env, n, {})
              Req(i) == ~Optional(props[i], FALSE)
